@@ -123,6 +123,9 @@ func EvalWith(p Program, opts EvalOpts) Expected {
 		a := ev.apply(base, Op{Kind: OpReshard, N: p.N1}, nil)
 		b := ev.apply(base, Op{Kind: OpReshard, N: p.N2}, nil)
 		d = cogroup(a, b)
+	case ShapeFanout:
+		x := ev.apply(src(p.Src), Op{Kind: OpMap, Var: MapAdd1}, nil)
+		d = cogroup(ev.apply(x, fanoutOp(p.N1), nil), ev.apply(x, fanoutOp(p.N2), nil))
 	case ShapeNested:
 		l := ev.apply(ev.apply(src(p.Src), Op{Kind: OpMap, Var: MapKeyMod3}, nil), Op{Kind: OpReduce}, nil)
 		r := ev.apply(ev.apply(src(p.Src2), Op{Kind: OpReshard, N: p.N1}, nil), Op{Kind: OpFold}, nil)
